@@ -541,7 +541,7 @@ func (c *client) readLoop() {
 func (c *client) send(obj interface{}) error {
 	c.wmu.Lock()
 	defer c.wmu.Unlock()
-	_ = c.conn.Conn.SetWriteDeadline(time.Now().Add(2 * time.Second))
+	_ = c.conn.Conn.SetWriteDeadline(time.Now().Add(10 * time.Second))
 	return c.enc.Encode(obj)
 }
 
